@@ -30,7 +30,8 @@ PROPERTY = "C08"
 LEVEL = "exploration"
 RULE = (
     "case = (seed in {1,2,42}, folds in {2,3,4}, workers in {1,3}, estimator in {Percolator SVM (coefficients), "
-    "recording linear learner (fold membership)}, FASTA with decoys | target-only | none, entry point API | CLI); each "
+    "recording linear learner (fold membership)}, FASTA with decoys | target-only | none, numeric or file-name-led "
+    "spectrum key, entry point API | CLI); each "
     "case is executed as: run, interleaved other run, run again (same process), 8 fresh interpreters with "
     "PYTHONHASHSEED 0..7, and all k! orders of the returned models fed back. An evaluation = one comparison of two "
     "executions' digests; non-trivial iff the two executions differ in process, hash seed, worker count, history or "
@@ -103,6 +104,11 @@ def analysis(case, work, models_in=None):
     shutil.rmtree(work, ignore_errors=True)
     work.mkdir(parents=True)
     df = table()
+    spectrum = ["ScanNr", "ExpMass"]
+    if case.get("key") == "file":
+        # a string-valued column leads the spectrum key (the optional filename column of a PIN file)
+        df.insert(3, "filename", [f"run{'AB'[(i // 2) % 2]}.mzML" for i in range(len(df))])  # target+decoy of a pair share it
+        spectrum = ["filename", "ScanNr", "ExpMass"]
     seed = case["seed"]
     if case.get("cli"):
         import mokapot.mokapot as cli
@@ -129,7 +135,7 @@ def analysis(case, work, models_in=None):
             else:
                 coefs.append(["untrained", m.fold])
         return {"files": {k: v for k, v in files.items() if not k.endswith(".pkl")}, "coefs": coefs}
-    ds = make_dataset(df, work / "in.pin", features=["f_key", "f2", "f3"], spectrum=["ScanNr", "ExpMass"])
+    ds = make_dataset(df, work / "in.pin", features=["f_key", "f2", "f3"], spectrum=spectrum)
     if models_in is not None:
         model = models_in
     elif case["est"] == "perc":
@@ -168,6 +174,19 @@ def analysis(case, work, models_in=None):
     dig["_models"] = models
     dig["_scores"] = np.asarray(scores[0], dtype=float)
     return dig
+
+
+def safe_analysis(case, work, models_in=None):
+    """analysis(), but one of mokapot's explicit refusals becomes part of the digest (it must then be the same
+    refusal in every variant); crashes propagate."""
+    from mc.core import classify_exception
+
+    try:
+        return analysis(case, work, models_in)
+    except Exception as e:
+        if classify_exception(e)[0] != "explicit_error":
+            raise
+        return {"explicit_error": exc_signature(e), "trained": [False], "scores": "", "_models": [], "_scores": np.zeros(0)}
 
 
 def public(d):
@@ -225,7 +244,7 @@ def check_case(case, acc, hashseeds=(0, 1, 2, 3, 4, 5, 6, 7)):
 
     try:
         try:
-            ref = analysis(case, work / "a")
+            ref = safe_analysis(case, work / "a")
         except Exception as e:
             add("analysis-raises:" + exc_signature(e), f"{type(e).__name__}: {e}", "reference")
             return
@@ -235,11 +254,11 @@ def check_case(case, acc, hashseeds=(0, 1, 2, 3, 4, 5, 6, 7)):
             analysis(other, work / "o")
         except Exception:
             pass
-        again = analysis(case, work / "b")
+        again = safe_analysis(case, work / "b")
         cmp("same-process-repeat", ref, again, "after-another-analysis")
         # worker count
         if not case.get("cli"):
-            w = analysis(dict(case, workers=3 if case["workers"] == 1 else 1), work / "w")
+            w = safe_analysis(dict(case, workers=3 if case["workers"] == 1 else 1), work / "w")
             cmp("worker-count", ref, w, {"workers": 3 if case["workers"] == 1 else 1})
         # fresh interpreters
         for hs in hashseeds:
@@ -281,8 +300,12 @@ def run(ctx):
         hs = tuple(range(8))
     for s, f, w, e, fa in grid:
         cases.append(dict(seed=s, folds=f, workers=w, est=e, fasta=fa, _hashseeds=list(hs)))
+    # spectrum key led by a string column (file name)
+    for s, f, e in (((1, 3, "perc"),) if ctx.quick else ((1, 3, "perc"), (2, 4, "perc"), (42, 4, "rec"))):
+        cases.append(dict(seed=s, folds=f, workers=1, est=e, fasta="none", key="file", _hashseeds=list(hs)))
     for s in ((1,) if ctx.quick else seeds):
         cases.append(dict(seed=s, folds=3, workers=1, cli=True, _hashseeds=list(hs)))
+        cases.append(dict(seed=s, folds=3, workers=1, cli=True, key="file", _hashseeds=list(hs)))
     ctx.pmap(worker, cases)
     ctx.exhaustive = True
     ctx.info["bound"] = {"cases": len(cases), "hash_seeds": list(hs)}
@@ -305,5 +328,5 @@ if __name__ == "__main__":
         if str(REPO) != "/repo":
             sys.path.insert(0, str(REPO))
         c = json.loads(sys.argv[2])
-        d = analysis(c, sys.argv[3])
+        d = safe_analysis(c, sys.argv[3])
         print("DIGEST " + json.dumps(public(d), sort_keys=True, default=str))
